@@ -10,8 +10,9 @@ ROOT = os.path.dirname(os.path.dirname(os.path.abspath(__file__)))
 REPO = os.environ.get("VERIF_REPO", "/repo")
 
 
-class Inconclusive(Exception):
-    """Raised by the watchdog: the case ran too long; never a violation."""
+class Inconclusive(BaseException):
+    """Raised by the watchdog: the case ran too long; never a violation.  A BaseException so that no
+    `except Exception` of a property module (or of the library) can turn it into a failure or swallow it."""
 
 
 class CaseFailed(Exception):
